@@ -98,6 +98,9 @@ func (c *FnCtx) execCallWith(bc *blockCtx, cc *ssa.CallCommon, fnVal Val, args [
 // function is reported as outside the subset).
 func (c *FnCtx) havocAll(bc *blockCtx, cc *ssa.CallCommon, name string) Val {
 	for n, s := range c.heapSorts {
+		if c.sweep && strings.HasPrefix(n, "LK:") {
+			continue // sweep mode: unknown callees are assumed not to touch this thread's locks
+		}
 		c.heapHavoc(bc.st, n, s)
 	}
 	na := c.sc.fresh("alloc", "Int")
